@@ -796,6 +796,22 @@ def rule_header_imports(ctx: Ctx, rid="C14.HEADER-COVERS-FREE-NAMES"):
 
 
 # ------------------------------------------------------------------ C07 identifiers in Python positions (D7)
+def _prog_ident_names(prog) -> set:
+    """Names of all DSL identifiers of a shape program (they are never skeleton names, whatever route they take
+    through the generator)."""
+    out = set()
+
+    def walk(x):
+        if isinstance(x, A.Sym):
+            if x.kind == "ident":
+                out.add(x.name)
+        elif isinstance(x, (list, tuple)):
+            for y in x:
+                walk(y)
+    walk([prog.name, prog.salt, prog.splitters, prog.body])
+    return out
+
+
 def rule_ident_positions(ctx: Ctx, rid="C07.IDENT-POSITIONS"):
     lc = ctx.main
     L = ctx.lexicon(lc.name)
@@ -806,7 +822,7 @@ def rule_ident_positions(ctx: Ctx, rid="C07.IDENT-POSITIONS"):
     for o, ir, err in irs(ctx):
         if ir is None:
             continue
-        idents = {h.sym.name for h in o.holes() if h.sym.kind == "ident"}
+        idents = {h.sym.name for h in o.holes() if h.sym.kind == "ident"} | _prog_ident_names(o.prog)
         for node in ast.walk(o.tree):
             if isinstance(node, ast.FunctionDef):
                 (sinks if node.name in idents else skeleton).add(("def-name", node.name) if node.name in idents else node.name)
